@@ -2,7 +2,7 @@
 import re
 
 from analysis import (emptiness_test, test_edges, flow_key, Prov, Guards, fmt, fmt_short, walk, roots, short, canon, lossy_casts, comparison, find_calls, callee_matches,
-                      must_pass, const_int_of, writes_into, _lin_add, linear)
+                      must_pass, const_int_of, writes_into, _lin_add, linear, closure_return_in_caller_terms, mirror, option_edges)
 from aff import Aff, Fact
 from facts import AnchorError, strip_closure
 from harness import Rule, guarded
@@ -190,6 +190,16 @@ def r1_r2_r3(ctx):
             between = [m for m in adv if m in b.reachable(tgt, removed_blocks=[sb]) and blk in b.reachable(b.blocks[m].term.target or m)]
             if not between:
                 ok = True
+        if not ok and empties:
+            # the check hoisted behind the match: the message is built first, and every way from there to `Ok(message)` passes the emptiness test,
+            # with no cursor read in between
+            ret_ok = [bb.idx for bb in b.blocks for s_ in bb.stmts if s_.k == "a" and s_.lhs.is_local() and s_.lhs.local == 0 and s_.rv.k == "agg" and
+                      s_.rv.j.get("variant") == "Ok" and bb.idx in b.live_blocks()]
+            after = b.reachable(blk, removed_edges=empties)
+            tests = {sb for sb, _ in empties}
+            between = [m for m in adv if m in b.reachable(blk) and m != blk and any(sb in b.reachable(b.blocks[m].term.target or m) for sb in tests)]
+            ok = bool(ret_ok) and not any(x in after for x in ret_ok if x != blk) and not between and \
+                (blk not in ret_ok or False)
         r1.check(ok, "%s: payload.is_empty() is tested after the last field was read" % label, "arm%s|trailing" % arm,
                  "Message::decode accepts a %s message with trailing bytes inside the list (no emptiness check after the last field)" % "/".join(bodies), loc=b.loc(line))
     # ---- R3 (a): message type tables
@@ -285,6 +295,39 @@ def r1_r2_r3(ctx):
             nexts = [bi for bi, t in b.calls() if callee_matches(t, r"slice::Iter<.*u64> as .*Iterator>::next$", r"Iterator>::next$") and bi in b.reachable(arms[arm]) and
                      "Decodable>::decode(%s)" % cname in fmt_short(p.operand(t.args[0]))]
             okk = bool(bad) and bool(nexts) and not any(blk in b.reachable(x) for x in bad) and must_pass(b, [blk], via_blocks=nexts)
+            if not okk:
+                # the loop written with an iterator search: `if let Some(d) = distances.iter().find(|d| **d > 256) { reject }`, `if distances.iter().any(|d| *d > 256)`,
+                # `if !distances.iter().all(|d| *d <= 256)`: the message is built only where no element exceeded the limit
+                safe = []
+                for bi, t, e in g.switches():
+                    inner, neg = e, False
+                    while inner[0] == "un" and inner[1] == "Not":
+                        inner, neg = inner[2], not neg
+                    src = inner[1] if inner[0] == "discr" else inner
+                    src = canon(src)
+                    if not (src[0] == "call" and re.search(r"Iterator>?::(find|any|all|position)$", short(src[1])) and len(src[2]) == 2):
+                        continue
+                    it = canon(src[2][0])
+                    if not (it[0] == "call" and re.search(r"::(iter|into_iter)$", short(it[1])) and it[2] and canon(it[2][0]) == stored):
+                        continue
+                    pred = closure_return_in_caller_terms(facts, src[2][1], [("unknown", "element")])
+                    c_ = comparison(pred) if pred is not None else None
+                    if not c_:
+                        continue
+                    for cc in (c_, mirror(c_)):
+                        if canon(cc[1]) == ("unknown", "element") and const_int_of(cc[2]) == 256 and cc[0] in (">", "<="):
+                            which = short(src[1]).split("::")[-1]
+                            over = cc[0] == ">"          # the predicate is true for an element above the limit
+                            if inner[0] == "discr" and which in ("find", "position") and over:
+                                so, no = option_edges(g, lambda y, src=src: canon(y) == src)
+                                safe += [x for x in no if x[0] == bi]
+                            elif which == "any" and over:
+                                f_, tr_ = g.bool_edges(bi)
+                                safe.append((bi, tr_ if neg else f_))
+                            elif which == "all" and not over:
+                                f_, tr_ = g.bool_edges(bi)
+                                safe.append((bi, f_ if neg else tr_))
+                okk = bool(safe) and blk not in b.reachable(0, removed_edges=safe)
             r2.check(okk, "FINDNODE: constructed only after the loop over its distances, whose `> 256` edge rejects", "findnode|distances",
                      "Message::decode can accept a FINDNODE request with a distance above 256", loc=b.loc(line))
         if "ResponseBody::Pong" in bodies:
